@@ -32,6 +32,10 @@ def plan(tier):
 def _scenario(draw, tier):
     d = draw(st.sampled_from([1, 1, 2]))
     n0 = draw(st.integers(3, 6))
+    if draw(st.integers(0, 9)) == 0:
+        # a well-advanced optimisation: dozens of evaluations already held
+        n0 = draw(st.sampled_from([24, 25, 26, 33, 40]))
+        d = draw(st.sampled_from([1, 2, 3]))
     ops = []
     for _ in range(draw(st.integers(1, 4))):
         k = draw(st.sampled_from(["propose_add", "propose_add", "add_random", "add_duplicate", "add_outlier", "propose", "decoy"]))
@@ -198,10 +202,11 @@ def execute(sc):
         X0 = lo + (hi - lo) * g.random((sc["n0"], d))
         if sc["x_form"] == "int":
             # integer-valued locations held in an integer-dtype array (as in the library's own examples)
-            lo, hi = np.full(d, -8.0), np.full(d, 8.0)
-            bounds = [(-8.0, 8.0)] * d
-            sc = dict(sc, lo=-8.0, width=16.0)
-            pts = g.permutation(17)[: sc["n0"]] - 8
+            K = max(8, int(sc["n0"]))  # lattice large enough for n0 distinct locations
+            lo, hi = np.full(d, -float(K)), np.full(d, float(K))
+            bounds = [(-float(K), float(K))] * d
+            sc = dict(sc, lo=-float(K), width=2.0 * K)
+            pts = g.permutation(2 * K + 1)[: sc["n0"]] - K
             X0 = np.stack([np.roll(pts, k) for k in range(d)], axis=1).astype(float)
         y0 = np.array([_objective(sc, x) for x in X0])
         e0 = np.full(sc["n0"], 0.05) if sc["y_err"] else None
